@@ -843,6 +843,12 @@ def ind(rel, arg: Rat) -> Rat:
         v = arg.const_value()
         ok = (v > 0) if rel == '>0' else (v < 0) if rel == '<0' else (v == 0)
         return Rat.const(1 if ok else 0)
+    # canonical argument: positive numeric coefficient 1  ([-x>0] == [x<0], [2x>0] == [x>0])
+    if arg.coef < 0:
+        rel = {'>0': '<0', '<0': '>0', '==0': '==0'}[rel]
+        arg = -arg
+    if arg.coef != 1:
+        arg = Rat(coef=Fraction(1), fac=arg.fac)
     return Rat.atom(('ind', rel, arg))
 
 
